@@ -11,6 +11,7 @@ SYMMETRIC_CALLS = {"equals"}
 
 
 TEMPLATES = None  # set by rule modules: Macro node -> template text
+INLINE = None     # set by rule modules: def path of a called free function -> its HIR fn (to look through extracted helpers), else None
 
 
 class Env:
@@ -50,6 +51,8 @@ def norm(n, env, depth=0):
         inner = norm(n["e"], env, depth + 1)
         if inner and inner[0] in ("list", "zip"):
             return inner
+        if inner and inner[0] == "okval":
+            return inner[1]  # `helper(..)?` where the helper ends in Ok(v): the value is v, inner failures keep their own `try`
         return ("try", inner)
     if k == "AddrOf":
         return norm(n["e"], env, depth + 1)
@@ -150,6 +153,20 @@ def norm(n, env, depth=0):
         nm = H.last(d)
         if nm in ("from", "into") and len(args) == 1:
             return args[0]
+        hf = INLINE(d) if INLINE is not None else None
+        if hf is not None and depth < 40 and len(hf.get("params", [])) == len(n["args"]):
+            # an extracted helper: evaluate its body with the parameters bound to the (normalised) arguments
+            e2 = Env()
+            for p_, a_ in zip(hf["params"], n["args"]):
+                bn = H.pat_binds(p_)
+                if len(bn) == 1:
+                    e2.roles[bn[0]] = norm(a_, env, depth + 1)
+            body = norm(hf["body"], e2, depth + 10)
+            fe = H.final_expr(hf["body"])
+            ff = H.strip(fe.get("f")) if H.kind(fe) == "Call" else None
+            if ff is not None and H.kind(ff) == "Path" and ff["res"].get("dk") == "Ctor" and (ff["res"].get("def") or "").endswith("result::Result::Ok"):
+                return ("okval", body)
+            return body
         return ("fn", nm) + tuple(args)
     if k == "MethodCall":
         nm = n["name"]
